@@ -33,6 +33,7 @@ const (
 	shTextOnly // T implements the text interfaces only
 	shBinOnly  // T implements the binary interfaces only
 	shJSONOnly // T implements the JSON interfaces only
+	shPMap     // T is *Map: a pointer to a map-kinded type (empty means: points to a map without elements)
 	shPval     // T is P itself: every method has a pointer receiver, so P lacks the marshal interfaces (only *P has them) and is decoded through &value
 	numShapes
 )
@@ -48,7 +49,7 @@ type Both interface {
 	json.Unmarshaler
 }
 
-var shapeNames = [...]string{"V(value marshalers, pointer unmarshalers)", "*P(pointer type)", "OnlyM", "OnlyU", "None", "Both(interface-typed T holding *P or nil)", "*V(pointer to value-receiver type)", "Str(string kind)", "Bytes(slice kind)", "Map(map kind)", "Num(integer kind)", "Byte(uint8 kind)", "Doc(struct with an interface-typed field holding a map)", "*L(String memoises into the value)", "TextOnly", "BinOnly", "JSONOnly", "P(value type whose methods all have pointer receivers)"}
+var shapeNames = [...]string{"V(value marshalers, pointer unmarshalers)", "*P(pointer type)", "OnlyM", "OnlyU", "None", "Both(interface-typed T holding *P or nil)", "*V(pointer to value-receiver type)", "Str(string kind)", "Bytes(slice kind)", "Map(map kind)", "Num(integer kind)", "Byte(uint8 kind)", "Doc(struct with an interface-typed field holding a map)", "*L(String memoises into the value)", "TextOnly", "BinOnly", "JSONOnly", "*Map(pointer to a map kind)", "P(value type whose methods all have pointer receivers)"}
 var helperNames = [...]string{"MarshalText", "UnmarshalText", "MarshalBinary", "UnmarshalBinary", "MarshalJSON", "UnmarshalJSON"}
 
 // listSpec is one helper invocation.
@@ -66,7 +67,7 @@ func (ls listSpec) helper() string { return helperNames[ls.enc*2+ls.dir] }
 // hasInterface: does the shape implement the interface this helper needs?
 func (ls listSpec) hasInterface() bool {
 	switch ls.shape {
-	case shV, shP, shIface, shPV, shStr, shBytes, shMap, shNum, shByte, shDoc, shMemo:
+	case shV, shP, shIface, shPV, shStr, shBytes, shMap, shNum, shByte, shDoc, shMemo, shPMap:
 		return true
 	case shOnlyM:
 		return ls.dir == dirMarshal
@@ -292,7 +293,11 @@ func isZero(v interface{}) bool {
 func (h recHelper[T]) AssertEmpty(t test.TestingT, value T, failInfo string) {
 	h.l.events = append(h.l.events, event{"typehelper.AssertEmpty", h.l.lastSeen})
 	empty := isZero(value)
-	if rv := reflect.ValueOf(value); rv.IsValid() && (rv.Kind() == reflect.Slice || rv.Kind() == reflect.Map) && rv.Len() == 0 {
+	rv := reflect.ValueOf(value)
+	if rv.IsValid() && rv.Kind() == reflect.Ptr && !rv.IsNil() {
+		rv = rv.Elem() // a pointer to a collection is as empty as the collection
+	}
+	if rv.IsValid() && (rv.Kind() == reflect.Slice || rv.Kind() == reflect.Map) && rv.Len() == 0 {
 		empty = true // this helper's notion of empty for collections: no elements
 	}
 	if pv, ok := any(value).(V); ok && h.clone && pv.Case == 0 && pv.Payload == "" {
@@ -355,7 +360,7 @@ func runEnc[T any](l *listRun, ls listSpec, mk func(i int, c caseSpec) T) {
 		return c.data(i)
 	}
 	listedData := func(i int, c caseSpec) string {
-		if c.adjust && ls.dir == dirMarshal {
+		if (c.adjust || c.adjustAfter) && ls.dir == dirMarshal {
 			return rightData(i, c) + "#listed-wrong"
 		}
 		return rightData(i, c)
@@ -374,7 +379,7 @@ func runEnc[T any](l *listRun, ls listSpec, mk func(i int, c caseSpec) T) {
 			var z T // nil slice / map; for the interface shape: the hook will supply the value
 			return z
 		}
-		if c.adjust && ls.dir == dirUnmarshal {
+		if (c.adjust || c.adjustAfter) && ls.dir == dirUnmarshal {
 			w := c
 			w.payload += "#listed-wrong"
 			return mk(i, w)
@@ -401,6 +406,19 @@ func runEnc[T any](l *listRun, ls listSpec, mk func(i int, c caseSpec) T) {
 		for i, c := range ls.cases {
 			cases[i] = test.CaseText[T]{Constraint: constraints[c.constraint], Before: hook[test.CaseText[T]](l, i, c.before, "before"), After: hook[test.CaseText[T]](l, i, c.after, "after"),
 				Error: listedPred(i, c), Data: listedData(i, c), Value: listedValue(i, c)}
+			if c.adjustAfter {
+				i, c := i, c
+				cases[i].After = func(idx int, cc *test.CaseText[T]) error {
+					l.hookIndex("after", i, idx)
+					l.seen("after", i)
+					if ls.dir == dirMarshal {
+						cc.Data = rightData(i, c)
+					} else {
+						cc.Value = mk(i, c)
+					}
+					return nil
+				}
+			}
 			if c.adjust {
 				i, c := i, c
 				cases[i].Before = func(idx int, cc *test.CaseText[T]) error {
@@ -425,6 +443,19 @@ func runEnc[T any](l *listRun, ls listSpec, mk func(i int, c caseSpec) T) {
 		for i, c := range ls.cases {
 			cases[i] = test.CaseBinary[T]{Constraint: constraints[c.constraint], Before: hook[test.CaseBinary[T]](l, i, c.before, "before"), After: hook[test.CaseBinary[T]](l, i, c.after, "after"),
 				Error: listedPred(i, c), Data: binData(listedData(i, c), c), Value: listedValue(i, c)}
+			if c.adjustAfter {
+				i, c := i, c
+				cases[i].After = func(idx int, cc *test.CaseBinary[T]) error {
+					l.hookIndex("after", i, idx)
+					l.seen("after", i)
+					if ls.dir == dirMarshal {
+						cc.Data = binData(rightData(i, c), c)
+					} else {
+						cc.Value = mk(i, c)
+					}
+					return nil
+				}
+			}
 			if c.adjust {
 				i, c := i, c
 				cases[i].Before = func(idx int, cc *test.CaseBinary[T]) error {
@@ -449,6 +480,19 @@ func runEnc[T any](l *listRun, ls listSpec, mk func(i int, c caseSpec) T) {
 		for i, c := range ls.cases {
 			cases[i] = test.CaseJSON[T]{Constraint: constraints[c.constraint], Before: hook[test.CaseJSON[T]](l, i, c.before, "before"), After: hook[test.CaseJSON[T]](l, i, c.after, "after"),
 				Error: listedPred(i, c), Data: listedData(i, c), Value: listedValue(i, c)}
+			if c.adjustAfter {
+				i, c := i, c
+				cases[i].After = func(idx int, cc *test.CaseJSON[T]) error {
+					l.hookIndex("after", i, idx)
+					l.seen("after", i)
+					if ls.dir == dirMarshal {
+						cc.Data = rightData(i, c)
+					} else {
+						cc.Value = mk(i, c)
+					}
+					return nil
+				}
+			}
 			if c.adjust {
 				i, c := i, c
 				cases[i].Before = func(idx int, cc *test.CaseJSON[T]) error {
@@ -519,6 +563,14 @@ func execList(ls listSpec, keepMsgs bool) (l *listRun, escaped interface{}) {
 			runEnc(l, ls, func(i int, c caseSpec) BinOnly { return BinOnly{i + 1, c.payload} })
 		case shJSONOnly:
 			runEnc(l, ls, func(i int, c caseSpec) JSONOnly { return JSONOnly{i + 1, c.payload} })
+		case shPMap:
+			runEnc(l, ls, func(i int, c caseSpec) *Map {
+				if c.beh == bNilReceiver || (c.nilValue && ls.dir == dirUnmarshal) {
+					return nil
+				}
+				m := Map{"c": kindValue(i+1, c.payload)}
+				return &m
+			})
 		case shDoc:
 			runEnc(l, ls, func(i int, c caseSpec) Doc { return Doc{i + 1, c.payload, docBody(i+1, false)} })
 		case shMemo:
@@ -640,7 +692,7 @@ func judge(ls listSpec, l *listRun, escaped interface{}) *core.Violation {
 func normalise(ls *listSpec) {
 	for i := range ls.cases {
 		c := &ls.cases[i]
-		ptrShape := ls.shape == shP || ls.shape == shPV || ls.shape == shMemo
+		ptrShape := ls.shape == shP || ls.shape == shPV || ls.shape == shMemo || ls.shape == shPMap
 		if c.beh == bNilReceiver && (!ptrShape || ls.dir != dirMarshal) {
 			c.beh = bPanicString
 		}
@@ -659,7 +711,7 @@ func normalise(ls *listSpec) {
 		if c.adjust && (ls.shape == shNum || ls.shape == shByte) && ls.dir == dirUnmarshal {
 			c.adjust = false // an integer has no room for a "listed wrong" payload
 		}
-		emptyKinds := ls.shape == shBytes || ls.shape == shMap
+		emptyKinds := ls.shape == shBytes || ls.shape == shMap || ls.shape == shPMap
 		if (c.beh == bErrorEmptied || c.beh == bEmptied) && (!emptyKinds || ls.dir != dirUnmarshal) {
 			if c.beh == bErrorEmptied {
 				c.beh = bError
@@ -667,7 +719,7 @@ func normalise(ls *listSpec) {
 				c.beh = bNothing
 			}
 		}
-		if c.nilExpect && (!emptyKinds || ls.dir != dirUnmarshal || c.adjust || c.wildcard || c.pred != pNone) {
+		if c.nilExpect && (!emptyKinds || ls.shape == shPMap || ls.dir != dirUnmarshal || c.adjust || c.wildcard || c.pred != pNone) {
 			c.nilExpect = false
 		}
 		if c.other && ls.shape != shIface {
@@ -691,7 +743,7 @@ func normalise(ls *listSpec) {
 		if ls.shape == shByte && i >= 90 {
 			c.constraint = 2 - ls.dir // a uint8 case number stays below the "wrong" offset
 		}
-		if c.wildcard && (ls.shape == shStr || ls.shape == shBytes || ls.shape == shMap || ls.shape == shNum || ls.shape == shByte || ls.shape == shMemo || ls.typeHelper != 2 || ls.dir != dirUnmarshal || c.pred != pNone || c.nilValue || c.nilIface || c.adjust) {
+		if c.wildcard && (ls.shape == shStr || ls.shape == shBytes || ls.shape == shMap || ls.shape == shNum || ls.shape == shByte || ls.shape == shMemo || ls.shape == shPMap || ls.typeHelper != 2 || ls.dir != dirUnmarshal || c.pred != pNone || c.nilValue || c.nilIface || c.adjust) {
 			c.wildcard = false
 		}
 		if c.wildcard && ls.shape == shDoc && c.wrongKind == wDynType {
@@ -723,6 +775,15 @@ func normalise(ls *listSpec) {
 			// a nil receiver panics before the scripted method body can announce itself;
 			// a passing Before hook marks the case boundary for the attribution instead
 			c.before = hPass
+		}
+		if c.adjustAfter && (c.adjust || (c.after != hAbsent && c.after != hPass) || c.nilValue || c.nilIface || c.nilExpect || c.wildcard || c.emptyData || c.nilData || c.beh == bNilReceiver ||
+			((ls.shape == shNum || ls.shape == shByte) && ls.dir == dirUnmarshal) || (ls.shape == shIface && ls.dir == dirUnmarshal) ||
+			(ls.typeHelper == 3 && ls.dir == dirUnmarshal)) { // the cloning TypeHelper derives the fresh value from the listed one before the call
+
+			c.adjustAfter = false
+		}
+		if c.adjustAfter {
+			c.after = hPass
 		}
 		if c.adjustPred && !c.adjust {
 			c.adjustPred = false // only a case with an adjusting Before hook has one that installs the predicate
